@@ -114,6 +114,42 @@ def model_statement_index(events, k):
     return base
 
 
+def locate(events, k):
+    """where in the request the statement k lies (part of every C17 signature, so that a listed finding covers
+    only the call site it was found at):
+      cleanup-txn               a transaction that only looks up / deletes consumer records (`delete_consumers` after a failed write)
+      in-set-allocations        the main write transaction from its first DELETE FROM allocations on (the retried `_set_allocations`)
+      main-txn-before-writes    the transaction that writes allocations, before that point (update_consumers, interim inventories)
+      other                     anything else (look-ups, get-or-create transactions, other routes)"""
+    seg, cur = [], []
+    for i, e in enumerate(events):
+        if e[0] != 'stmt':
+            continue
+        if e[1] == 'BEGIN' and cur:
+            seg.append(cur)
+            cur = []
+        cur.append(i)
+    if cur:
+        seg.append(cur)
+    for sg in seg:
+        if k not in sg:
+            continue
+        vt = [(events[x][1], events[x][2]) for x in sg]
+        writes = [x for x in vt if x[0] in ('INSERT', 'UPDATE', 'DELETE')]
+        if ('DELETE', 'allocations') in vt or ('INSERT', 'allocations') in vt:
+            first = min(x for x in sg if (events[x][1], events[x][2]) in (('DELETE', 'allocations'), ('INSERT', 'allocations')))
+            return 'in-set-allocations' if k >= first else 'main-txn-before-writes'
+        if writes and all(t == 'consumers' and v == 'DELETE' for v, t in writes):
+            return 'cleanup-txn'
+        if not writes and any(t == 'consumers' for v, t in vt) and sg is seg[-1] and len(seg) > 1 and \
+                any(('DELETE', 'allocations') in [(events[x][1], events[x][2]) for x in o] or
+                    ('INSERT', 'consumers') in [(events[x][1], events[x][2]) for x in o] for o in seg[:-1]):
+            return 'cleanup-txn'
+        first = next(((v, t) for v, t in vt if v != 'BEGIN'), ('BEGIN', ''))
+        return 'txn[%s.%s]' % first       # a look-up / get-or-create transaction, named by its first statement
+    return 'other'
+
+
 def wellformed_error(r):
     j = r.json
     try:
@@ -204,7 +240,7 @@ def case(args):
                     same_as_post = core(d) == core(post)
                     same_as_pre = core(d) == core(pre)
                     if cls is not None:
-                        vio.append(('c17:%s:%s:%s' % (kind, op['op'], cls),
+                        vio.append(('c17:%s:%s:%s:%s' % (kind, op['op'], cls, locate(events, k)),
                                     'fault %s at statement %d (%s %s): status %s, state equals neither the fault-free result nor the state before' % (kind, k, ev[1], ev[2], st)))
                     elif same_as_post and not same_as_pre and st != r0.status:
                         vio.append(('c17:%s:%s:effect-applied-but-status-%s' % (kind, op['op'], st),
